@@ -204,6 +204,16 @@ def check_order_triple(sa, sb, sc):
     return fails
 
 
+class FoldingConverter(Converter):
+    """A subclass whose prefix standardisation ignores case (the validation context must go through it)."""
+
+    def standardize_prefix(self, prefix, *, strict=False, passthrough=False):
+        for k, v in self.synonym_to_prefix.items():
+            if k.casefold() == prefix.casefold():
+                return v
+        return super().standardize_prefix(prefix, strict=strict, passthrough=passthrough)
+
+
 def contexts():
     c1 = Converter([Record(prefix="a", uri_prefix="http://a/", prefix_synonyms=["A", "alias"]), Record(prefix="", uri_prefix="http://d/", prefix_synonyms=["dflt"])])
     c2 = Converter([Record(prefix="é", uri_prefix="http://e/", prefix_synonyms=["a b"])])
@@ -243,6 +253,31 @@ def check_context():
                             fails.append((f"known-prefix-rejected/{cname}", f"{where}: {type(exc).__name__}"))
                         elif o.prefix != want or o.identifier != ident:
                             fails.append((f"prefix-not-standardised-through-context/{cname}", f"{where}: got ({o.prefix!r}, {o.identifier!r}), canonical prefix {want!r}"))
+        # a converter with another delimiter as context: CURIE strings of references are still split at ':' (or at sep)
+        slash = Converter([Record(prefix="a", uri_prefix="http://a/", prefix_synonyms=["A"])], delimiter="/")
+        for cname, C in (("Reference", Reference), ("NamableReference", NamableReference)):
+            for curie, wantpair in (("A:1", ("a", "1")), ("a:x/y", ("a", "x/y")), ("A:", ("a", ""))):
+                n += 1
+                try:
+                    o = C.from_curie(curie, converter=slash) if cname == "Reference" else C.from_curie(curie, "N", converter=slash)
+                    if (o.prefix, o.identifier) != wantpair:
+                        fails.append((f"from_curie-with-converter-splits-differently/{cname}", f"from_curie({curie!r}, converter=<delimiter '/'>) = ({o.prefix!r}, {o.identifier!r})"))
+                except Exception as e:  # noqa
+                    fails.append((f"from_curie-with-converter-raises/{cname}", f"from_curie({curie!r}, converter=<delimiter '/'>): {type(e).__name__}"))
+            e = raises(C.from_curie, "a/1", *((("N",)) if cname != "Reference" else ()), converter=slash)
+            if not isinstance(e, ValueError):
+                fails.append((f"separator-free-string-accepted/{cname}.from_curie-with-converter", f"from_curie('a/1', converter=<delimiter '/'>) -> {e!r}"))
+        # a subclass that standardises prefixes its own way: validation goes through the converter's method
+        fold = FoldingConverter([Record(prefix="GO", uri_prefix="http://go/", prefix_synonyms=["gomf"])])
+        for p_in, want_p in (("go", "GO"), ("GOMF", "GO"), ("GO", "GO")):
+            n += 1
+            for C in (Reference, NamableReference):
+                try:
+                    o = C.model_validate({"prefix": p_in, "identifier": "1"}, context=fold)
+                    if o.prefix != want_p:
+                        fails.append(("context-standardisation-bypasses-the-converter", f"prefix {p_in!r} validated to {o.prefix!r}, converter.standardize_prefix gives {want_p!r}"))
+                except Exception as e:  # noqa
+                    fails.append(("context-standardisation-bypasses-the-converter", f"prefix {p_in!r} rejected ({type(e).__name__}) although converter.standardize_prefix gives {want_p!r}"))
         # the context is the live converter: a prefix rejected earlier is accepted once the converter knows it
         live = Converter([Record(prefix="a", uri_prefix="http://a/")])
         for cname in ("Reference", "NamableReference"):
@@ -282,7 +317,7 @@ def check_files(idx_a):
     for ext in ("tsv", "tsv.gz"):
         path = os.path.join(tmpdir(), f"{os.getpid()}.{ext}")
         # one file per triple (isolates the failing one) and one file with all of them (row interaction)
-        for batch in [[t] for t in triples] + [triples]:
+        for batch in [[t] for t in triples] + [triples, [triples[0], triples[0], triples[-1], triples[0]]]:   # the last: repeated rows
             n += 1
             try:
                 write_triples(batch, path)
@@ -295,6 +330,7 @@ def check_files(idx_a):
                 fails.append((f"triples-file-round-trip-differs/{ext}", f"{len(batch)} triple(s): wrote {(bad.subject.curie, bad.predicate.curie, bad.object.curie)!r}, read back {[(t.subject.curie, t.predicate.curie, t.object.curie) for t in back][:1]!r}"))
             if len(fails) > 3:
                 return fails, n
+        write_triples(triples, path)
         back = read_triples(path, reference_cls=NamableReference)
         if [(t.subject.pair, t.predicate.pair, t.object.pair) for t in back] != [(t.subject.pair, t.predicate.pair, t.object.pair) for t in triples]:
             fails.append((f"triples-file-round-trip-differs/{ext}/reference_cls", "NamableReference"))
